@@ -35,11 +35,11 @@ variable {F : Nat → Option (List Nat)} {cap bm mw : Nat} {ns : Option Nat} {so
   {inputs : List (List Item)} {prods : List ProdSpec} {c : Piter.Cfg}
 
 /-- every input iterator is consumed by at least one producer (true for `piter_fn`'s and for
-`piter_multiplex`'s set-up, see `covered_shared` / `covered_multiplex`) -/
+`piter_multiplex`'s set-up, see `C13_wf_shared` / `C13_wf_multiplex`) -/
 def WF (inputs : List (List Item)) (prods : List ProdSpec) : Prop :=
   ∀ i, i < inputs.length → ∃ p ∈ prods, p.sid = i
 
-theorem covered_of_wf (h : WF inputs prods) : Covered (Piter.init cap bm mw ns soe inputs prods) := by
+theorem C13_covered_of_wf (h : WF inputs prods) : Covered (Piter.init cap bm mw ns soe inputs prods) := by
   intro i hi
   obtain ⟨p, hp, hs⟩ := h i hi
   exact ⟨mkProducer p, by simp [Piter.init]; exact Or.inr ⟨p, hp, rfl⟩, rfl, hs⟩
@@ -52,12 +52,12 @@ theorem C13_multiset (hwf : WF inputs prods)
     {t0 : PThread} (h0 : c.ths[0]? = some t0) {r : List Nat} (hout : t0.iterOutcome = some (.stop r))
     (he : t0.early = false) :
     ∃ out, seqEval F inputs.flatten = some out ∧ (t0.q.received.map (·.2)).Perm out :=
-  (end_facts h (covered_of_wf hwf) h0 hout he).2.2.2.2.2
+  (end_facts h (C13_covered_of_wf hwf) h0 hout he).2.2.2.2.2
 
 /-- `iter_fn` distributes over splitting its input (as multisets) -/
 def Distrib (g : List Nat → List Nat) : Prop := g [] = [] ∧ ∀ xs ys, (g (xs ++ ys)).Perm (g xs ++ g ys)
 
-theorem distrib_flatMap {g : List Nat → List Nat} (hg : Distrib g) (l : List Nat) :
+theorem C13_distrib_flatMap {g : List Nat → List Nat} (hg : Distrib g) (l : List Nat) :
     (g l).Perm (l.flatMap fun x => g [x]) := by
   induction l with
   | nil => rw [hg.1]; exact List.Perm.refl _
@@ -68,13 +68,13 @@ theorem distrib_flatMap {g : List Nat → List Nat} (hg : Distrib g) (l : List N
     exact this.trans (List.Perm.append_left _ ih)
 
 /-- the row-wise operators distribute: `map`, `filter`, flat-map, and their compositions -/
-theorem distrib_of_flatMap (f : Nat → List Nat) : Distrib (fun l => l.flatMap f) :=
+theorem C13_distrib_of_flatMap (f : Nat → List Nat) : Distrib (fun l => l.flatMap f) :=
   ⟨rfl, fun xs ys => by simp⟩
-theorem distrib_map (f : Nat → Nat) : Distrib (fun l => l.map f) :=
+theorem C13_distrib_map (f : Nat → Nat) : Distrib (fun l => l.map f) :=
   ⟨rfl, fun xs ys => by simp⟩
-theorem distrib_filter (p : Nat → Bool) : Distrib (fun l => l.filter p) :=
+theorem C13_distrib_filter (p : Nat → Bool) : Distrib (fun l => l.filter p) :=
   ⟨rfl, fun xs ys => by simp⟩
-theorem distrib_comp {g1 g2 : List Nat → List Nat} (h1 : Distrib g1) (h2 : Distrib g2)
+theorem C13_distrib_comp {g1 g2 : List Nat → List Nat} (h1 : Distrib g1) (h2 : Distrib g2)
     (hperm : ∀ a b : List Nat, a.Perm b → (g2 a).Perm (g2 b)) : Distrib (g2 ∘ g1) := by
   refine ⟨by simp [Function.comp, h1.1, h2.1], fun xs ys => ?_⟩
   exact (hperm _ _ (h1.2 xs ys)).trans (h2.2 _ _)
@@ -97,7 +97,7 @@ theorem C13_multiset_distrib {g : List Nat → List Nat} (hg : Distrib g) (hwf :
   rw [seqEval_ok _ _ hok] at hs
   cases hs
   refine hp.trans ?_
-  have := distrib_flatMap hg (vals inputs.flatten)
+  have := C13_distrib_flatMap hg (vals inputs.flatten)
   simpa [FMv] using this.symm
 
 /-- **Every generator's return value is collected**: at a clean end `queue.returned` — which is
@@ -107,7 +107,7 @@ theorem C13_returns (hwf : WF inputs prods)
     {t0 : PThread} (h0 : c.ths[0]? = some t0) {r : List Nat} (hout : t0.iterOutcome = some (.stop r))
     (he : t0.early = false) :
     c.sh.returned = r ∧ r.Perm (prods.map (·.ret)) :=
-  let f := end_facts h (covered_of_wf hwf) h0 hout he
+  let f := end_facts h (C13_covered_of_wf hwf) h0 hout he
   ⟨f.2.2.2.1, f.2.2.2.2.1⟩
 
 /-- **A clean end is clean**: when the consumer's iteration ended with `StopIteration(*returned)`, no
@@ -118,7 +118,7 @@ theorem C13_clean_end (hwf : WF inputs prods)
     {t0 : PThread} (h0 : c.ths[0]? = some t0) {r : List Nat} (hout : t0.iterOutcome = some (.stop r))
     (he : t0.early = false) :
     c.sh.exc = none ∧ (∀ t ∈ c.ths, t.isProd = true → pastStop t.q.pc = true) ∧ c.sh.q = [] :=
-  let f := end_facts h (covered_of_wf hwf) h0 hout he
+  let f := end_facts h (C13_covered_of_wf hwf) h0 hout he
   ⟨f.1, f.2.1, f.2.2.1⟩
 
 /-! ### the shared input is pulled under its lock -/
@@ -301,34 +301,6 @@ theorem C13_late_task_returns {tid : Tid} {t : PThread} (ht : c.ths[tid]? = some
 /-! ### Non-vacuity: concrete schedules (tests of the definitions; the schedules were produced by the
 REAL code under the deterministic scheduler and are replayed here on the model) -/
 
-/-- run a schedule of thread ids (no timeout alternatives) -/
-def exec (F : Nat → Option (List Nat)) : Piter.Cfg → List Tid → Option Piter.Cfg
-  | c, [] => some c
-  | c, tid :: rest =>
-    match Piter.step F c tid false with
-    | none => none
-    | some (_, c') => exec F c' rest
-
-theorem reachable_of_exec : ∀ (sched : List Tid) (c c' : Piter.Cfg), exec F c sched = some c' → Reachable F c c' := by
-  intro sched
-  induction sched with
-  | nil => intro c c' h; simp only [exec, Option.some.injEq] at h; rw [← h]; exact .init
-  | cons x xs ih =>
-    intro c c' h
-    simp only [exec] at h
-    split at h
-    · cases h
-    · rename_i lbl c1 hs
-      have h1 := ih c1 c' h
-      clear h ih
-      induction h1 with
-      | init => exact .step .init hs
-      | step _ hs2 ih2 => exact .step ih2 hs2
-
-theorem reachable_exec (c : Piter.Cfg) (sched : List Tid) (h : (exec F c sched).isSome = true) :
-    Reachable F c ((exec F c sched).get h) :=
-  reachable_of_exec sched c _ (Option.some_get h).symm
-
 /-- `pmap(inc, [1,2], max_parallism=2, buffer_size=1)`: a complete schedule (84 steps) of the real code.
 The hypotheses of `C13_multiset` / `C13_returns` hold in its final configuration: the consumer ended
 with `StopIteration(900, 900)`, received `[2, 3]`, and everything is done. -/
@@ -360,14 +332,14 @@ example : ∃ c, Reachable (evalFn .dup (some 2))
        1,1,1,0,0,0,0,0,0,0,0,0,0,0,0,0,0] (by decide), by decide⟩
 
 /-- the set-ups of the entry points satisfy `WF`: `piter_fn` / `pmap` (producers share input 0) … -/
-theorem wf_shared (input : List Item) (r : Nat) (rets : List Nat) : WF [input] (sharedSpecs (r :: rets)) := by
+theorem C13_wf_shared (input : List Item) (r : Nat) (rets : List Nat) : WF [input] (sharedSpecs (r :: rets)) := by
   intro i hi
   have : i = 0 := by simpa using hi
   subst this
   exact ⟨{ sid := 0, useLock := true, ret := r }, by simp [sharedSpecs], rfl⟩
 
 /-- … and `piter_multiplex` (producer `i` owns input `i`) -/
-theorem wf_multiplex (inputs : List (List Item)) (rets : List Nat) (h : rets.length = inputs.length) :
+theorem C13_wf_multiplex (inputs : List (List Item)) (rets : List Nat) (h : rets.length = inputs.length) :
     WF inputs (multiplexSpecs rets) := by
   intro i hi
   rw [← h] at hi
@@ -376,6 +348,6 @@ theorem wf_multiplex (inputs : List (List Item)) (rets : List Nat) (h : rets.len
   exact ⟨(rets[i], i), by simp [List.mk_mem_zipIdx_iff_getElem?, hi], rfl⟩
 
 /-- the row functions used in the correspondence are total or fail exactly where asked -/
-example : Distrib (fun l => l.flatMap fun x => if x % 2 == 1 then [x, x + 500] else []) := distrib_of_flatMap _
+example : Distrib (fun l => l.flatMap fun x => if x % 2 == 1 then [x, x + 500] else []) := C13_distrib_of_flatMap _
 
 end MlModel.C13
